@@ -341,6 +341,9 @@ def _finite(n):
     return z3.BoolVal(True) if n.inf is None else z3.Not(n.inf)
 
 
+GENERIC_ITEMS = [False]      # set by a library while it verifies a class whose items are arbitrary objects
+
+
 def truth(v):
     """z3 Bool: Python truthiness of v."""
     if isinstance(v, VDyn):
@@ -356,6 +359,9 @@ def truth(v):
         return z3.Or(v.inf, v.t != 0)
     if isinstance(v, SList):
         return v.len > 0
+    if isinstance(v, VObj) and v.kind == "item" and GENERIC_ITEMS[0]:
+        # a generic store holds arbitrary Python objects: 0, "" or an empty batch are legitimate (falsy) items
+        return z3.Function("item_truthy", z3.IntSort(), z3.BoolSort())(v.t)
     if isinstance(v, (VObj, VFunc)):
         return z3.BoolVal(True)
     if isinstance(v, VOpt):
